@@ -552,3 +552,195 @@ def selftest(propmod, prop, n, verif_seed=1, variant='asan'):
     bad = [i for i in range(n) if hashes[0][i].get('hash') != hashes[1][i].get('hash') or 'error' in hashes[0][i]]
     print('selftest %s: %d seeds x 2 worker counts, %d mismatches%s' % (prop, n, len(bad), (' first=%d' % bad[0]) if bad else ''))
     return 0 if not bad else 2
+
+
+# ---------------------------------------------------------------------------------- fault-point sweeps
+# A sweep property module provides:
+#   gen(rng, tier, i) -> Plan                      scenario (fault-free)
+#   points(plan, base_result, tier, rng) -> [k...] fault points to enumerate (instruction indices)
+#   with_fault(plan, k) -> Plan                    the scenario with the fault armed at point k
+#   base_info(plan, base_result) -> dict           what the per-point oracle needs from the fault-free run
+#   check_point(plan_k, res, info) -> [Violation]
+#   check_base(plan, res) -> [Violation]           oracle on the fault-free run itself
+def _sweep_base(args):
+    i, seed, tier = args
+    try:
+        rng = random.Random(seed)
+        plan = _prop.gen(rng, tier, i)
+        res = _worker.run(plan)
+        viols = _prop.check_base(plan, res)
+        info = _prop.base_info(plan, res)
+        pts = _prop.points(plan, res, tier, random.Random(seed ^ 0x5bd1e995))
+        return {'i': i, 'seed': seed, 'violations': [v.to_json() for v in viols], 'info': info, 'points': pts, 'hash': res.hash,
+                'plan': plan.to_json(), 'exit': res.exit, 'vus': res.events[-1].vus if res.events else 0}
+    except Exception:
+        import traceback
+        return {'i': i, 'seed': seed, 'error': traceback.format_exc()}
+
+
+def _sweep_point(args):
+    i, seed, tier, k, info, mode = args
+    try:
+        rng = random.Random(seed)
+        plan = _prop.with_fault(_prop.gen(rng, tier, i), k)
+        res = _worker.run(plan)
+        viols = _prop.check_point(plan, res, info)
+        out = {'i': i, 'k': k, 'seed': seed, 'hash': res.hash, 'violations': [v.to_json() for v in viols], 'exit': res.exit, 'mode': mode,
+               'stats': res.stats(), 'vus': res.events[-1].vus if res.events else 0}
+        if hasattr(_prop, 'summarize_point'):
+            out.update(_prop.summarize_point(plan, res, info))
+        if viols:
+            out['plan'] = plan.to_json()
+        return out
+    except Exception:
+        import traceback
+        return {'i': i, 'k': k, 'seed': seed, 'error': traceback.format_exc(), 'violations': [], 'mode': mode}
+
+
+def run_sweep(propmod, prop, tier, verif_seed, n_scen, variant='asan', jobs=None, replay=None):
+    t0 = time.time()
+    build(variant)
+    jobs = jobs or int(os.environ.get('VERIF_JOBS', '16'))
+    known = load_known()
+    os.makedirs(os.path.join(ROOT, 'evidence'), exist_ok=True)
+    os.makedirs(os.path.join(ROOT, 'replays'), exist_ok=True)
+    if replay:
+        d = json.load(open(replay))
+        plan = Plan.from_json(d['plan'])
+        w = Worker(variant)
+        try:
+            base = w.run(propmod.without_fault(plan))
+            res = w.run(plan)
+        finally:
+            w.stop()
+        info = propmod.base_info(propmod.without_fault(plan), base)
+        viols = propmod.check_point(plan, res, info) if propmod.has_fault(plan) else propmod.check_base(plan, res)
+        for e in res.events:
+            if e.kind not in ('cycle', 'epoll'): print(repr(e))
+        if res.stderr: print(res.stderr)
+        print('event_log_sha256', res.hash)
+        for v in viols: print('VIOLATION property=%s replay=%s  # %s' % (prop, replay, v))
+        return 1 if viols else 0
+    ctx = multiprocessing.get_context('fork')
+    with ctx.Pool(jobs, initializer=_init, initargs=(propmod.__name__, variant)) as pool:
+        bases = list(pool.imap_unordered(_sweep_base, [(i, run_seed(verif_seed, prop, i), tier) for i in range(n_scen)], chunksize=1))
+        errors = [b for b in bases if 'error' in b]
+        if errors:
+            sys.stderr.write(errors[0]['error']); sys.stderr.write('HARNESS ERROR in %d scenarios\n' % len(errors)); return 2
+        bases.sort(key=lambda b: b['i'])
+        tasks = []
+        for b in bases:
+            for k in b['points']:
+                tasks.append((b['i'], b['seed'], tier, k, b['info'], 'run'))
+        ndet = max(8, len(tasks) // 40)
+        det_tasks = [tasks[int(j * len(tasks) / ndet)][:5] + ('det',) for j in range(ndet)] if tasks else []
+        results = []
+        hangs = 0
+        for r in pool.imap_unordered(_sweep_point, tasks + det_tasks, chunksize=8):
+            results.append(r)
+            if r.get('exit') in (('exit', 76), ('wall-timeout', 0)) and r.get('mode') != 'det':
+                hangs += 1
+                if hangs >= 3:
+                    pool.terminate(); break
+    errors = [r for r in results if 'error' in r]
+    if errors:
+        sys.stderr.write(errors[0]['error']); sys.stderr.write('HARNESS ERROR in %d points\n' % len(errors)); return 2
+    main = {(r['i'], r['k']): r for r in results if r.get('mode') != 'det'}
+    det = [r for r in results if r.get('mode') == 'det' and (r['i'], r['k']) in main]
+    det_bad = [r for r in det if main[(r['i'], r['k'])]['hash'] != r['hash']]
+    if det_bad:
+        sys.stderr.write('HARNESS NONDETERMINISM: %d of %d re-executed points differ (first %s)\n' % (len(det_bad), len(det), (det_bad[0]['i'], det_bad[0]['k'])))
+        return 2
+    by_cls = {}
+    for b in bases:
+        for v in b['violations']:
+            by_cls.setdefault(v['class'], []).append(('base', b['i'], None))
+    for key in sorted(main):
+        for v in main[key]['violations']:
+            by_cls.setdefault(v['class'], []).append(('point', key[0], key[1]))
+    basemap = {b['i']: b for b in bases}
+    new_cls = []; known_hits = {}
+    for cls, occ in sorted(by_cls.items()):
+        kf = match_known(known, prop, cls)
+        if kf: known_hits[cls] = (kf, occ)
+        else: new_cls.append((cls, occ))
+    exit_code = 0
+    w = Worker(variant); w.start()
+    try:
+        for cls, occ in new_cls[:5]:
+            kind, i, k = occ[0]
+            if kind == 'base':
+                plan = Plan.from_json(basemap[i]['plan'])
+                fails = lambda p: any(v.cls == cls for v in propmod.check_base(p, w.run(p)))
+            else:
+                plan = Plan.from_json(main[(i, k)]['plan'])
+                def fails(p):
+                    if not propmod.has_fault(p): return False
+                    base = w.run(propmod.without_fault(p))
+                    info = propmod.base_info(propmod.without_fault(p), base)
+                    return any(v.cls == cls for v in propmod.check_point(p, w.run(p), info))
+            small, nruns = _shrink_with(plan, fails)
+            ok1 = fails(small); ok2 = fails(small)
+            if not (ok1 and ok2):
+                sys.stderr.write('HARNESS: violation %s (scenario %d point %s) does not replay\n' % (cls, i, k)); exit_code = max(exit_code, 2); continue
+            name = re.sub(r'[^A-Za-z0-9_.-]+', '_', cls)[:80]
+            path = os.path.join(ROOT, 'replays', '%s-%d.json' % (name, basemap[i]['seed'] % 1000000))
+            r1 = w.run(small)
+            vv = [v for v in (propmod.check_base(small, r1) if kind == 'base' else propmod.check_point(small, r1, propmod.base_info(propmod.without_fault(small), w.run(propmod.without_fault(small))))) if v.cls == cls]
+            json.dump({'property': prop, 'engine': 'W-sweep', 'verif_seed': verif_seed, 'run_seed': basemap[i]['seed'], 'tier': tier, 'fault_point': k,
+                       'plan': small.to_json(), 'plan_text': small.lines(), 'violation': vv[0].to_json() if vv else {'class': cls}, 'event_log_sha256': r1.hash,
+                       'minimised_from_cycles': len(plan.cycles), 'minimised_to_cycles': len(small.cycles), 'shrink_runs': nruns, 'occurrences_in_batch': len(occ)},
+                      open(path, 'w'), indent=1)
+            print('VIOLATION property=%s replay=%s  # %s (%d points)' % (prop, path, vv[0] if vv else cls, len(occ)))
+            exit_code = max(exit_code, 1)
+    finally:
+        w.stop()
+    for cls, (kf, occ) in sorted(known_hits.items()):
+        print('KNOWN-FINDING: property=%s %s [%s; %d points]' % (prop, kf['what_fails'], cls, len(occ)))
+    # evidence
+    wall = time.time() - t0
+    absset = set(); sites = {}; probes = {}; faults = {}
+    for r in main.values():
+        if r.get('nontrivial') and r.get('abstract'): absset.add(r['abstract'])
+        for kk, vv in r.get('probes', {}).items(): probes[kk] = probes.get(kk, 0) + vv
+        for kk, vv in r.get('stats', {}).items(): faults[kk] = faults.get(kk, 0) + vv
+    samples = []
+    for b in bases[:3]:
+        samples.append({'seed': b['seed'], 'scenario': Plan.from_json(b['plan']).lines()[-6:], 'fault_points': len(b['points']),
+                        'first_points': b['points'][:10]})
+    evd = {'property_id': prop, 'tier': tier, 'seed': verif_seed, 'level': getattr(propmod, 'LEVEL', 'fault_enumeration'),
+           'coverage': {'evaluations': len(main) + len(bases), 'distinct_nontrivial': len(absset), 'rule': getattr(propmod, 'RULE', ''), 'samples': samples,
+                        'scenarios': len(bases), 'fault_points': len(main), 'exhaustive': False,
+                        'points_per_scenario': {'min': min([len(b['points']) for b in bases] or [0]), 'max': max([len(b['points']) for b in bases] or [0])},
+                        'runs_per_hour': int((len(main) + len(bases)) / wall * 3600) if wall > 0 else 0,
+                        'simulated_seconds': round(sum(r.get('vus', 0) for r in main.values()) / 1e6, 1),
+                        'fault_and_event_counters': faults, 'reach_probes': probes,
+                        'determinism_reruns': len(det), 'determinism_mismatches': 0, 'components': getattr(propmod, 'COMPONENTS', {}),
+                        'violation_classes': {kk: len(vv) for kk, vv in by_cls.items()}, 'known_findings_matched': sorted(known_hits)},
+           'assumptions': getattr(propmod, 'ASSUMPTIONS', []), 'wall_s': round(wall, 2), 'violations': sum(1 for c in by_cls if c not in known_hits)}
+    json.dump(evd, open(os.path.join(ROOT, 'evidence', prop + '.json'), 'w'), indent=1)
+    print('%s %s: %d scenarios, %d fault points, %d distinct non-trivial, %d violation classes (%d known), %.1fs' % (
+        prop, tier, len(bases), len(main), len(absset), len(by_cls), len(known_hits), wall))
+    return exit_code
+
+
+def _shrink_with(plan, fails, max_runs=300):
+    """ddmin over cycles and steps with a caller-supplied predicate"""
+    runs = [0]
+    def f(p):
+        if runs[0] >= max_runs: return False
+        runs[0] += 1
+        return fails(p)
+    cur = plan.copy()
+    n = 2
+    while len(cur.cycles) >= 2 and runs[0] < max_runs:
+        chunk = max(1, len(cur.cycles) // n)
+        reduced = False
+        for start in range(0, len(cur.cycles), chunk):
+            cand = cur.copy(); del cand.cycles[start:start + chunk]
+            if cand.cycles and f(cand):
+                cur = cand; n = max(n - 1, 2); reduced = True; break
+        if not reduced:
+            if chunk == 1: break
+            n = min(n * 2, len(cur.cycles))
+    return cur, runs[0]
